@@ -602,7 +602,11 @@ def _s3(program, res):
                 tt = unparse(t_.test)
                 if ".kind" not in tt and "dtype" not in tt:
                     continue  # another test (isinstance(numpy.generic) ...) is exact by itself
-                if "__len__" in tt or "ndim" in tt or "numpy.generic" in tt or "isscalar" in tt:
+                if "__len__" in tt and "ndim" not in tt:
+                    res.fail_at("C12-S3", ini_, f"zero-dimensional-array-refused:{cname_}",
+                                f"{cname_} tells scalars from arrays by `__len__` (`{tt[:70]}`): numpy.ndarray defines __len__ for every array, a zero-dimensional one "
+                                f"(numpy.array(3), the result of .squeeze()) included, so x.is_in([1, numpy.array(3)]) is refused although it holds one number", t_)
+                elif "ndim" in tt or "numpy.generic" in tt or "isscalar" in tt:
                     res.ok("C12-S3", f"{cname_}: the numpy conversion takes scalars only")
                 else:
                     res.fail_at("C12-S3", ini_, f"array-item-taken-for-scalar:{cname_}",
